@@ -189,6 +189,7 @@ class GlobalEvent(Event):
 
 
 @typ.final
+@dataclasses.dataclass(kw_only=True, frozen=True)
 class TextEvent(GlobalEvent):
     """A ``GlobalEvent`` that stores freeform text event data."""
 
@@ -206,6 +207,7 @@ class TextEvent(GlobalEvent):
 
 
 @typ.final
+@dataclasses.dataclass(kw_only=True, frozen=True)
 class SectionEvent(GlobalEvent):
     """A ``GlobalEvent`` that signifies a new section.
 
@@ -223,6 +225,7 @@ class SectionEvent(GlobalEvent):
 
 
 @typ.final
+@dataclasses.dataclass(kw_only=True, frozen=True)
 class LyricEvent(GlobalEvent):
     """A ``GlobalEvent`` that stores lyric data.
 
